@@ -205,7 +205,27 @@ def gen_seq_op(r, root, foreign):
             if r.random() < 0.2:
                 op['set'].append(-1)        # a comment of another document
         return op
+    if c < 0.93 and (mix or wr):
+        # a comment built through one of the public constructors is attached as a leading / trailing comment or inserted
+        # as a standalone entry: it is owned from then on, whatever constructor built it
+        via = r.choice(['value', 'raw', 'token'])
+        if mix and (not wr or r.random() < 0.6):
+            return {'k': 'attach', 'i': r.randrange(len(mix)), 'side': r.choice(['leading', 'trailing']), 'via': via}
+        return {'k': 'attach-entry', 'i': r.randrange(len(wr)), 'at': r.randrange(0, 4), 'via': via}
     return {'k': 'auto', 'i': r.randrange(len(nodes))}
+
+
+def _new_comment(via, indent):
+    if via == 'value':
+        return models.BlockComment.from_value('attached', indent=indent)
+    if via == 'raw':
+        return models.BlockComment.from_raw_text(indent + '; attached')
+    return P().parse_token(indent + '; attached', models.BlockComment)
+
+
+def _indent_of(m):
+    ind = getattr(m, 'indent', None)
+    return ind if isinstance(ind, str) else ''
 
 
 def apply_seq_op(root, op, foreign, walk=None, replay=None):
@@ -226,6 +246,17 @@ def apply_seq_op(root, op, foreign, walk=None, replay=None):
                 arg = [foreign if i == -1 else comments[i] for i in op['set'] if i == -1 or i < len(comments)]
             r = getattr(w, op['m'])(arg)
             return f'n{min(len(r), 3)}'
+        if op['k'] == 'attach':
+            m = _mixins(root)[op['i']]
+            if getattr(m, f'raw_{op["side"]}_comment') is not None:
+                return 'occupied'
+            setattr(m, f'raw_{op["side"]}_comment', _new_comment(op['via'], _indent_of(m)))
+            return 'attached'
+        if op['k'] == 'attach-entry':
+            m, w = _wrappers(root)[op['i']]
+            items = [x for x in w if not isinstance(x, models.BlockComment)]
+            w.insert(min(op['at'], len(w)), _new_comment(op['via'], _indent_of(items[0]) if items else ''))
+            return 'attached'
         nodes = [m for _, m in intro.walk(root) if not isinstance(m, base.RawTokenModel)]
         if walk is not None:
             walk.run(nodes[op['i']], replay or {})
